@@ -219,9 +219,9 @@ def trace_graph(g):
                 on_path = sorted(set(_gname(e.from_gnode) for e in list(from_path) + list(to_path)) |
                                  set(_gname(e.to_gnode) for e in list(from_path) + list(to_path)))
                 path = g.longest_path(fg, tg)
-                walked = from_path.dist + to_path.dist
+                walked_len = from_path.dist + to_path.dist
                 nst = from_path.stretches + to_path.stretches
-                if abs(walked - path.dist) > 1e-9 or nst != path.stretches:
+                if abs(walked_len - path.dist) > 1e-9 or nst != path.stretches:
                     branch = 'between:offpath'
         except Exception:
             pass
@@ -346,7 +346,9 @@ def main():
             out.append(run(c, i))
         except Exception as e:
             import traceback
-            out.append({'error': type(e).__name__ + ': ' + str(e)[:400], 'tb': traceback.format_exc()[-800:]})
+            frames = [[os.path.basename(f.filename), f.name, (f.line or '').strip()]
+                      for f in traceback.extract_tb(e.__traceback__) if '/lcapy/' in f.filename]
+            out.append({'error': type(e).__name__ + ': ' + str(e)[:400], 'tb': traceback.format_exc()[-800:], 'frames': frames[-6:]})
     json.dump(out, sys.stdout)
 
 
